@@ -70,8 +70,10 @@ def make(name, r, uid_len=None, unset_prob=0.15):
 
 def reference_command(name, r, with_data):
     """Reference-built command set bytes for a message of class `name`."""
+    # PS3.7: Command Data Set Type 0101H = no data set, *any other value* = a data set follows
     fields = {R.TAG_COMMAND_FIELD: STANDARD[name],
-              R.TAG_DATA_SET_TYPE: 0x0001 if with_data else 0x0101}
+              R.TAG_DATA_SET_TYPE: (0x0001 if r.random() < 0.6 else r.choice(
+                  [0x0000, 0x0102, 0x0100, 0x0001, 0xFFFF, 0x0201])) if with_data else 0x0101}
     is_rsp = bool(STANDARD[name] & 0x8000) or name == 'CCancelRQMessage'
     if name in ('NGetRQMessage', 'NSetRQMessage', 'NActionRQMessage', 'NDeleteRQMessage'):
         fields[R.TAG_REQUESTED_SOP_CLASS] = gen.rand_uid(r, r.randrange(5, 40)).decode().strip('.') or '1'
